@@ -144,6 +144,21 @@ func c06Matrix() []c06Case {
 		out = append(out, c06Case{Cond: &refmodel.Cond{Op: "type", Args: []refmodel.Operand{po, valX}}, Item: doc, Values: val.Item{":x": val.Str("S")}, Tag: "path-type"})
 		out = append(out, c06Case{Cond: &refmodel.Cond{Op: "in", Args: []refmodel.Operand{po, valX}}, Item: doc, Values: val.Item{":x": val.Str("a")}, Tag: "path-in"})
 		out = append(out, c06Case{Cond: &refmodel.Cond{Op: "between", Args: []refmodel.Operand{po, valX, valR}}, Item: doc, Values: val.Item{":x": val.Str("a"), ":r": val.Str("b")}, Tag: "path-between"})
+		// every operand position of BETWEEN and IN takes any operand: a :value on the left, document paths and
+		// size() as bounds or members, the whole under NOT
+		sTop := refmodel.Operand{Kind: "path", Path: refmodel.P("s")}
+		out = append(out, c06Case{Cond: &refmodel.Cond{Op: "between", Args: []refmodel.Operand{valX, po, valR}}, Item: doc, Values: val.Item{":x": val.Str("a"), ":r": val.Str("b")}, Tag: "between-v-path-v"})
+		out = append(out, c06Case{Cond: &refmodel.Cond{Op: "between", Args: []refmodel.Operand{valX, valR, po}}, Item: doc, Values: val.Item{":x": val.Str("a"), ":r": val.Str("A")}, Tag: "between-v-v-path"})
+		out = append(out, c06Case{Cond: &refmodel.Cond{Op: "between", Args: []refmodel.Operand{sTop, po, po}}, Item: doc, Values: val.Item{}, Tag: "between-p-path-path"})
+		out = append(out, c06Case{Cond: &refmodel.Cond{Op: "not", Kids: []*refmodel.Cond{{Op: "between", Args: []refmodel.Operand{sTop, po, valR}}}}, Item: doc, Values: val.Item{":r": val.Str("b")}, Tag: "not-between-path-bound"})
+		out = append(out, c06Case{Cond: &refmodel.Cond{Op: "in", Args: []refmodel.Operand{valX, po, valR}}, Item: doc, Values: val.Item{":x": val.Str("a"), ":r": val.Str("zz")}, Tag: "in-v-path-v"})
+		out = append(out, c06Case{Cond: &refmodel.Cond{Op: "in", Args: []refmodel.Operand{sTop, valR, po}}, Item: doc, Values: val.Item{":r": val.Str("zz")}, Tag: "in-p-v-path"})
+		// size() of the path as operand and as bound
+		sz := refmodel.Operand{Kind: "size", Path: p}
+		out = append(out, c06Case{Cond: &refmodel.Cond{Op: "between", Args: []refmodel.Operand{sz, valX, valR}}, Item: doc, Values: val.Item{":x": val.Num("1"), ":r": val.Num("2")}, Tag: "between-size-v-v"})
+		out = append(out, c06Case{Cond: &refmodel.Cond{Op: "between", Args: []refmodel.Operand{valX, sz, valR}}, Item: doc, Values: val.Item{":x": val.Num("1"), ":r": val.Num("2")}, Tag: "between-v-size-v"})
+		out = append(out, c06Case{Cond: &refmodel.Cond{Op: "between", Args: []refmodel.Operand{valX, valR, sz}}, Item: doc, Values: val.Item{":x": val.Num("1"), ":r": val.Num("0")}, Tag: "between-v-v-size"})
+		out = append(out, c06Case{Cond: &refmodel.Cond{Op: "in", Args: []refmodel.Operand{valX, sz, valR}}, Item: doc, Values: val.Item{":x": val.Num("1"), ":r": val.Num("2")}, Tag: "in-v-size-v"})
 	}
 	// #name placeholders standing for attribute names that are no identifiers (dots, brackets, spaces,
 	// digits first, reserved words ...): the placeholder names the attribute with exactly that name - it is
